@@ -26,7 +26,7 @@ def bounds(tier):
 
 
 def _meshes(tier, nd):
-    ms = list(scope.named_meshes(nd)) + scope.thin_meshes(nd)
+    ms = list(scope.named_meshes(nd)) + scope.thin_meshes(nd) + scope.far_index_meshes(nd)
     if tier == "thorough":
         blocks = (2, 2) if nd == 2 else (2, 2, 1)
         for t in scope.level0_tilings(blocks, 3):
